@@ -81,12 +81,12 @@ Print Assumptions C17_zerofill_current_clobbers.
 Definition swallow_d := run_disk VRepaired small_params [Save (seg 1 3 1 0 5 7) None None] (empty_disk small_params).
 Definition swallow_es := seg 2 1 2 0 5 900.
 Theorem C17_clear_error_swallowed_refuted :
-  let '(rep, d1) := save_fail VRepaired small_params swallow_es None None FClear swallow_d in
+  let '(rep, d1) := save_fail VRepaired small_params swallow_es None None (FClear 0) swallow_d in
   rep = false
   /\ map e_index (a_ents (abs d1)) = [1; 2; 3]
   /\ map e_index (s_append swallow_es (a_ents (abs swallow_d))) = [1; 2]
   /\ map e_index (fst (disk_all small_params (reopen small_params d1))) = [1; 2; 3]
-  /\ (let '(rep', d1') := save_fail VZeroSlots small_params swallow_es None None FClear swallow_d in
+  /\ (let '(rep', d1') := save_fail VZeroSlots small_params swallow_es None None (FClear 0) swallow_d in
       rep' = true /\ abs d1' = abs swallow_d).
 Proof. vm_compute. repeat split. Qed.
 Print Assumptions C17_clear_error_swallowed_refuted.
